@@ -30,7 +30,7 @@ RULE = (
     "picks a tabulated nuclide with both cross-sections (or synthetic cross-sections in barn / fm^2 "
     "/ angstrom^2 / m^2), a number density (log-uniform 1e-9..1e3 per cubic angstrom, expressed in "
     "1/angstrom^3, 1/nm^3, 1/cm^3 or 1/m^3) and 1-4 wavelengths (log-uniform 1e-3..1e3 angstrom, "
-    "expressed in angstrom, nm, um, mm, cm or m; float64 or int64; scalar or array); oracle "
+    "expressed in angstrom, nm, um, mm, cm, m, pm or fm; float64 or int64; scalar or array); oracle "
     "n*(sigma_s + sigma_a*lambda/1.7982 A) in 50-digit arithmetic on the stored inputs. Non-trivial "
     "= the absorption term contributes at least 1e-9 of the total and lambda is not the reference "
     "wavelength."
@@ -426,7 +426,7 @@ def check_sequence(case):
 
 # ------------------------------------------------------------------ facet 6: attenuation
 
-LAM_UNITS = ["angstrom", "nm", "um", "mm", "cm", "m"]
+LAM_UNITS = ["angstrom", "nm", "um", "mm", "cm", "m", "pm", "fm"]  # pm/fm: integer wavelengths must not be truncated to whole angstrom (seeded/C20-s2)
 DENS_UNITS = {"1/angstrom**3": "angstrom", "1/nm**3": "nm", "1/cm**3": "cm", "1/m**3": "m"}
 AREA_UNITS = {"barn": mp.mpf(10) ** -28, "fm**2": mp.mpf(10) ** -30, "angstrom**2": mp.mpf(10) ** -20,
               "m**2": mp.mpf(1)}
